@@ -44,8 +44,8 @@ def run(ctx):
     SUM = None
     g_sum = False
 
-    def is_len_sum(x):
-        """x = sum of len() over the slices of arg2, in a sum(map(..)) pipeline or an accumulating loop"""
+    def is_len_sum(x, init_want=("c", 0)):
+        """x = init + sum of len() over the slices of arg2, in a sum(map(..)) pipeline (init 0) or an accumulating loop"""
         if x[0] == "call" and len(x[2]) == 1 and ("Iterator>::sum" in str(x[1]) or cn(x[1]).endswith("Iterator::sum")):
             mp = x[2][0]
             is_map = mp[0] == "call" and ("Iterator>::map" in str(mp[1]) or cn(mp[1]).endswith("Iterator::map"))
@@ -72,7 +72,7 @@ def run(ctx):
                 if len(init) != 1 or len(upd) != 1 or init[0][0] != "stmt" or upd[0][0] != "stmt":
                     continue
                 st0 = b.stmts(init[0][1])[init[0][2]]
-                if N(A.tb.rvalue(st0["rv"], (init[0][1], init[0][2]), st0)) != ("c", 0):
+                if N(A.tb.rvalue(st0["rv"], (init[0][1], init[0][2]), st0)) != init_want:
                     continue
                 st1 = b.stmts(upd[0][1])[upd[0][2]]
                 uv = N(A.tb.rvalue(st1["rv"], (upd[0][1], upd[0][2]), st1))
@@ -89,6 +89,11 @@ def run(ctx):
                     continue
                 itr = item[1][1][2][0]
                 itr = itr[1] if itr[0] == "ref" else itr
+                if itr[0] == "opq" and len(itr) > 2 and itr[1] == "phi" and isinstance(itr[2], int):
+                    # the iterator variable is advanced in the loop: what is walked is its value on entry to the loop
+                    pre_ = [p_ for (p_, _l) in b.pred[h_] if p_ not in lb_]
+                    if len(pre_) == 1:
+                        itr = N(A.tb.read(itr[2], (), (pre_[0], len(b.stmts(pre_[0])))))
                 for _ in range(3):
                     if itr[0] == "call" and len(itr[2]) == 1 and ("IntoIterator" in str(itr[1]) or cn(itr[1]) == "core::slice::iter"):
                         itr = itr[2][0]
@@ -101,11 +106,21 @@ def run(ctx):
         if tag_[0] == "bin" and tag_[1] == "Add" and HS in (tag_[2], tag_[3]):
             SUM = tag_[3] if tag_[2] == HS else tag_[2]
             g_sum = is_len_sum(SUM)
+    if not g_sum and len(sets) == 1:
+        # the accumulator starts at size_of::<Header>() (`fold(header_size, |n, s| n + s.len())`): the stored size is the loop's result
+        tag_ = N(sets[0][2])[2][1]
+        if tag_[0] == "opq" and is_len_sum(tag_, init_want=N(HS)):
+            SUM = ("bin", "Sub", tag_, HS)
+            g_sum = True
     ctx.check(g_sum, "N1", "sum", "additional_size is the sum of len() over the given slices", A.site(), how=G.show(SUM)[:160] if SUM else "",
               why=G.show(sets[0][2])[:300] if sets else "no set_size() call")
     TAG = None
     g1 = False
-    if len(sets) == 1 and SUM is not None:
+    if len(sets) == 1 and SUM is not None and SUM[0] == "bin" and SUM[1] == "Sub" and SUM[3] == HS and SUM[2][0] == "opq":
+        sv = N(sets[0][2])
+        TAG = sv[2][1]
+        g1 = sv[2][0][0] in ("ref", "opq", "arg")
+    elif len(sets) == 1 and SUM is not None:
         sv = N(sets[0][2])
         # set_size(&mut header, tag_size)
         TAG = sv[2][1]
